@@ -953,6 +953,7 @@ class UnwindExceeded(Exception):
 
 _range = range
 RANGE_CAP = [64]
+UNWOUND = [None]     # sticky: the code under test may swallow the exception in a broad except clause
 
 
 def sx_range(*args):
@@ -972,6 +973,7 @@ def sx_range(*args):
         while i < stop:
             n += 1
             if n > RANGE_CAP[0]:
+                UNWOUND[0] = "range loop exceeded %d iterations" % RANGE_CAP[0]
                 raise UnwindExceeded("range loop exceeded %d iterations" % RANGE_CAP[0])
             yield i
             i = i + step
